@@ -104,6 +104,10 @@ TWINS = {  # one rule-breaking edit each
     "group_blocklength_below_content": {"g_bl": "5"},
     "entry_field_offset_below_min": {"y_off": "1"},
     "choice_index_beyond_width": {"choice_hi": "8"},
+    # an explicit offset of 0 on a member that is not the first one is an offset below the minimum like any other (0 must not be mistaken for "no offset given")
+    "field_offset_zero": {"b_off": "0"},
+    "composite_member_offset_zero": {"cmp_q_off": "0"},
+    "entry_field_offset_zero": {"y_off": "0"},
 }
 T_ = "        "
 TWINS_OTHER = {  # rules that are not about layout: the twin must be rejected (observed exit status + located diagnostic); nothing for a solver to decide unless it is accepted
@@ -114,6 +118,11 @@ TWINS_OTHER = {  # rules that are not about layout: the twin must be rejected (o
                            "_after_group": T_ + '<data name="xd" id="21" type="vdw"/>\n'},
     "multi_byte_vardata_through_ref": {"extra_types": T_ + '<type name="w32" primitiveType="int32" length="0"/>\n' + T_ + '<composite name="vdr">\n' + T_ + '    <type name="length" primitiveType="uint16"/>\n' + T_ + '    <ref name="varData" type="w32"/>\n' + T_ + '</composite>\n',
                                        "_after_group": T_ + '<data name="xd" id="21" type="vdr"/>\n'},
+    "ref_member_offset_below_min": {"extra_types": T_ + '<composite name="cr">\n' + T_ + '    <type name="p" primitiveType="uint16"/>\n' + T_ + '    <ref name="r" type="lim" offset="1"/>\n' + T_ + '</composite>\n'},
+    "ref_member_offset_zero": {"extra_types": T_ + '<composite name="cr">\n' + T_ + '    <type name="p" primitiveType="uint16"/>\n' + T_ + '    <ref name="r" type="lim" offset="0"/>\n' + T_ + '</composite>\n'},
+    "enum_member_offset_zero": {"extra_types": T_ + '<composite name="ce">\n' + T_ + '    <type name="p" primitiveType="uint32"/>\n' + T_ + '    <enum name="e" encodingType="uint8" offset="0">\n' + T_ + '        <validValue name="x">1</validValue>\n' + T_ + '    </enum>\n' + T_ + '</composite>\n'},
+    "set_member_offset_below_min": {"extra_types": T_ + '<composite name="cs">\n' + T_ + '    <type name="p" primitiveType="uint32"/>\n' + T_ + '    <set name="s" encodingType="uint8" offset="3">\n' + T_ + '        <choice name="x">1</choice>\n' + T_ + '    </set>\n' + T_ + '</composite>\n'},
+    "nested_composite_member_offset_zero": {"extra_types": T_ + '<composite name="cc">\n' + T_ + '    <type name="p" primitiveType="uint32"/>\n' + T_ + '    <composite name="in" offset="0">\n' + T_ + '        <type name="q" primitiveType="uint8"/>\n' + T_ + '    </composite>\n' + T_ + '</composite>\n'},
     "unknown_type_reference": {"m_bl": "20", "extra_fields": T_ + '<field name="xu" id="20" type="nosuchtype"/>\n'},
     "data_type_not_a_composite": {"extra_fields": "", "extra_types": "", "_after_group": T_ + '<data name="xd" id="21" type="lim"/>\n'},
     "dimension_type_not_a_composite": {"_after_group": T_ + '<group name="xg" id="22" dimensionType="es">\n' + T_ + '    <field name="q" id="23" type="uint8"/>\n' + T_ + '</group>\n'},
